@@ -9,8 +9,10 @@ wt=/tmp/seedns/$name
 mkdir -p /tmp/seedns
 git -C /repo worktree add -q --detach $wt/repo HEAD || exit 2
 mkdir -p $wt/evidence $wt/replays
+# the harness sources are snapshotted too, so that /verif/h may be edited while a run is in progress
+cp -r /verif/h $wt/h; cp -r /verif/hhz $wt/hhz
 if ! git -C $wt/repo apply "$patch"; then echo "PATCH DOES NOT APPLY"; git -C /repo worktree remove --force $wt/repo; rm -rf $wt; exit 3; fi
-unshare -m bash -c "mount --bind $wt/repo /repo && mount --bind $wt/evidence /verif/evidence && mkdir -p /verif/replays && mount --bind $wt/replays /verif/replays && cd /verif && ./verif check $id --tier $tier" > $wt/log 2>&1
+unshare -m bash -c "mount --bind $wt/repo /repo && mount --bind $wt/h /verif/h && mount --bind $wt/hhz /verif/hhz && mount --bind $wt/evidence /verif/evidence && mkdir -p /verif/replays && mount --bind $wt/replays /verif/replays && cd /verif && ./verif check $id --tier $tier" > $wt/log 2>&1
 rc=$?
 grep -ac "^VIOLATION" $wt/log | sed "s/^/violations: /"
 grep -a -A2 "^VIOLATION\|HARNESS" $wt/log | cut -c1-400 | head -${LINES_MAX:-12}
